@@ -259,6 +259,13 @@ class IOWorker (object):
     """
     self._shutdown_send |= send
     #TODO: recv
+    if self._shutdown_send and len(self.send_buf) == 0 and not self.closed:
+      # Nothing is waiting to be flushed, so no _do_send() is going to come
+      # along and do this for us.
+      try:
+        self.socket.shutdown(socket.SHUT_WR)
+      except Exception:
+        pass
 
   def __repr__ (self):
     return "<" + self.__class__.__name__ + ">"
